@@ -14,6 +14,7 @@ import tea_tasting.utils
 
 if TYPE_CHECKING:
     from collections.abc import Sequence
+    from typing import Any
 
     import narwhals.typing  # noqa: TC004
 
@@ -23,6 +24,7 @@ _MEAN = "_mean__{}"
 _VAR = "_var__{}"
 _COV = "_cov__{}__{}"
 _DEMEAN = "_demean__{}"
+_GROUP_MEAN = "_group_mean__{}"
 
 
 class Aggregates(tea_tasting.utils.ReprMixin):  # noqa: D101
@@ -417,10 +419,7 @@ def _read_aggr_narwhals(
     covar_cols = tuple({*var_cols, *itertools.chain(*cov_cols)})
     if len(covar_cols) > 0:
         data = (
-            data.with_columns(**{
-                _DEMEAN.format(col): _demean_nw_col(col, group_col)
-                for col in covar_cols
-            })
+            _demean_nw(data, covar_cols, group_col)
             .with_columns(
                 **{
                     _VAR.format(col):
@@ -464,10 +463,28 @@ def _read_aggr_narwhals(
     return aggr_data.collect().to_arrow().to_pylist()
 
 
-def _demean_nw_col(col: str, group_col: str | None) -> nw.Expr:
+def _demean_nw(
+    data: nw.LazyFrame[Any],
+    cols: Sequence[str],
+    group_col: str | None,
+) -> nw.LazyFrame[Any]:
     if group_col is None:
-        return nw.col(col) - nw.col(col).mean()
-    return nw.col(col) - nw.col(col).mean().over(group_col)
+        return data.with_columns(**{
+            _DEMEAN.format(col): nw.col(col) - nw.col(col).mean()
+            for col in cols
+        })
+
+    # The group means are joined by the group key rather than computed with
+    # a window function: `.over()` on PyArrow tables relies on the row order
+    # of a join, which PyArrow does not keep for chunked or large tables.
+    group_means = data.group_by(group_col).agg(**{
+        _GROUP_MEAN.format(col): nw.col(col).mean()
+        for col in cols
+    })
+    return data.join(group_means, on=group_col, how="left").with_columns(**{
+        _DEMEAN.format(col): nw.col(col) - nw.col(_GROUP_MEAN.format(col))
+        for col in cols
+    })
 
 
 def _get_aggregates(
